@@ -342,6 +342,9 @@ def body_seq(case, ctx):
             return r
         prev = d
     r.weight = max(1, len(calls))
+    if r.nt:
+        r.label("sequence_with_nontrivial_step")
+        r.nt = False   # non-trivial STEPS were already counted one by one (digest of descriptor + predecessor) above
     numba.set_num_threads(numba.config.NUMBA_NUM_THREADS)
     return r
 
